@@ -169,11 +169,22 @@ pub struct InfOpts<'a> {
     pub record_calls: bool,
     /// pre-fill pattern for the output arena
     pub out_fill: u8,
+    /// reuse: before the session proper the stream processes part of another byte string (abandoned wherever
+    /// it then is: mid-header, mid-block, mid-match, after an error) and is reset with inflateReset; everything
+    /// the oracles demand of a fresh stream is then demanded of the reused one (C API back ends only)
+    pub prehistory: Option<Prehistory<'a>>,
+}
+
+pub struct Prehistory<'a> {
+    pub bytes: &'a [u8],
+    pub calls: usize,
+    pub in_chunk: usize,
+    pub out_chunk: usize,
 }
 
 impl<'a> InfOpts<'a> {
     pub fn new(wbits: c_int) -> Self {
-        InfOpts { wbits, max_out: 1 << 22, max_calls: 2_000_000, dict: None, capture: None, record_calls: false, out_fill: 0xA5 }
+        InfOpts { wbits, max_out: 1 << 22, max_calls: 2_000_000, dict: None, capture: None, record_calls: false, out_fill: 0xA5, prehistory: None }
     }
 }
 
@@ -230,6 +241,10 @@ pub trait InfBack: Sized {
     }
     fn totals(&self) -> (u64, u64, u64);
     fn msg(&self) -> Option<String>;
+    /// inflateReset; None = this back end has no such operation
+    fn reset(&mut self) -> Option<c_int> {
+        None
+    }
     fn end(self) -> c_int;
 }
 
@@ -273,6 +288,9 @@ impl<A: Z> InfBack for CApi<A> {
     }
     fn get_header(&mut self, h: *mut gz_header) -> c_int {
         unsafe { A::inflateGetHeader(&mut *self.strm, h) }
+    }
+    fn reset(&mut self) -> Option<c_int> {
+        Some(unsafe { A::inflateReset(&mut *self.strm) })
     }
     fn totals(&self) -> (u64, u64, u64) {
         (self.strm.total_in as u64, self.strm.total_out as u64, self.strm.adler as u64)
@@ -400,6 +418,25 @@ pub fn run_inflate_with<B: InfBack>(data: &[u8], sched: &InfSchedule, o: &InfOpt
             return run;
         }
     };
+    if let Some(ph) = &o.prehistory {
+        let mut pos = 0usize;
+        for _ in 0..ph.calls {
+            let ic = ph.in_chunk.min(ph.bytes.len() - pos).min(ar.inp.cap);
+            let oc = ph.out_chunk.min(ar.out.cap - 64);
+            let ip = ar.inp.put_right(&ph.bytes[pos..pos + ic]);
+            let op = ar.out.right(oc);
+            let co = be.call(ip, ic, op, oc, Z_NO_FLUSH);
+            pos += (co.din_ptr.max(0) as usize).min(ic);
+            if !matches!(co.rc, Z_OK | Z_BUF_ERROR) {
+                break;
+            }
+        }
+        if let Some(rc) = be.reset() {
+            if rc != Z_OK {
+                viol(&mut run, "C14", "reuse/inflateReset-status", format!("inflateReset of a stream abandoned after {} bytes of another input returned {}", pos, rc_name(rc)));
+            }
+        }
+    }
     if let (Some(d), true) = (o.dict, o.wbits < 0) {
         // raw stream: the dictionary is installed before the first call (there is no NEED_DICT)
         let dp = ar.dict.put_right(&d[..d.len().min(ar.dict.cap)]);
